@@ -345,6 +345,33 @@ def rule_d9(ctx):
                   "(<pair> ::= <left> \"=\" <right> | <right> \"~\" <left>) the translation of `<pair>.<left>.<key> = <pair>.<right>.<val>` gains wrong conjuncts", "dominated by the symbol comparison")
 
 
+def rule_d11(ctx):
+    """Every recursive call of univ_close_over_var_push_in hands on the container variable (`in_var`), the match expression and the variable set: a call that omits
+    in_var falls back to the default constant `start`, which is wrong as soon as the specification declares its constant under another name."""
+    f = ctx.repo.func(LANG, "univ_close_over_var_push_in", "C08.D11")
+    c = f"{LANG}:univ_close_over_var_push_in"
+    params = [a.arg for a in f.args.args]
+    rec = [x for x in ast.walk(f) if isinstance(x, ast.Call) and call_name(x) == "univ_close_over_var_push_in"]
+    if len(rec) < 2:
+        raise Unrecognised("C08.D11", c, f"only {len(rec)} recursive calls found")
+    for call in rec:
+        passed = {}
+        for i, a in enumerate(call.args):
+            if i < len(params):
+                passed[params[i]] = src(a)
+        for k in call.keywords:
+            if k.arg:
+                passed[k.arg] = src(k.value)
+        for need in ("var", "in_var", "mexpr", "qfd_vars"):
+            ctx.check(passed.get(need) == need, "D11-push-in-arguments", c, f"recursive call passes {need}", site(call),
+                      f"a recursive call of univ_close_over_var_push_in does not hand on `{need}` (got {passed.get(need)!r}): for `in_var` the default constant `start` is used, so with "
+                      "`const prog: <start>; (<var> = \"a\" and exists <rhs> r: r = \"1\")` the closure ranges over an undeclared `start`", f"{need}={need}")
+    # ... and the quantifier that is finally built ranges over in_var with the match expression
+    last = f.body[-1]
+    ok = isinstance(last, ast.Return) and " ".join(src(last.value).split()) == "ForallFormula(var, in_var, formula, bind_expression=mexpr)"
+    ctx.check(ok, "D11-push-in-arguments", c, "new quantifier = forall var in in_var with mexpr", site(last), f"found {src(last)[:70]}", "ForallFormula(var, in_var, formula, bind_expression=mexpr)")
+
+
 def rule_d10(ctx):
     """Universal closure with push-in: a sub-formula that does not mention the new variable may be left OUTSIDE the new quantifier only if the combinator is a
     disjunction.  `forall x: (A(x) and B)` is vacuously true over a tree without any x, `(forall x: A(x)) and B` is just B."""
@@ -374,6 +401,7 @@ def rule_d10(ctx):
 
 def run(ctx) -> str:
     ctx.guarded("D10", lambda: rule_d10(ctx))
+    ctx.guarded("D11", lambda: rule_d11(ctx))
     ctx.guarded("D8", lambda: rule_d8(ctx))
     ctx.guarded("D9", lambda: rule_d9(ctx))
     ctx.guarded("D7", lambda: rule_d7(ctx))
